@@ -449,11 +449,11 @@ Section Run.
         (* a unit struct only gets from_word; a declared from_none is not emitted *)
         mkFm None None None (Some (Ok (VStruct []))) None None None None None None
     | TNewtypeR c inner =>
-        (* fn from_meta(item) = FromMeta::from_meta(item).map_err(with_span(item)).map(R) *)
+        (* fn from_meta(item) = FromMeta::from_meta(item).map_err(with_span(item)).map(R); a container-level
+           map / and_then is accepted by the derive but not emitted for a newtype *)
         mkFm None
-             (Some (fun m => apply_post (ci_post c)
-                               (map_ok (fun v => VStruct [("0", v)])
-                                  (map_err (with_span (i_span (ninfo m))) (from_meta (impl_of inner) m)))))
+             (Some (fun m => map_ok (fun v => VStruct [("0", v)])
+                               (map_err (with_span (i_span (ninfo m))) (from_meta (impl_of inner) m))))
              None None None None None None None None
     | TStructR c fields =>
         let convs := map (fun ft => impl_of (snd ft)) fields in
